@@ -43,6 +43,7 @@ type HarnessSpec struct {
 	NoNative  bool   `json:"no_native"`
 	TimeND    bool   `json:"time_nondet"`
 	RandND    bool   `json:"rand_nondet"`
+	Sched     string `json:"sched"` // "" = every sync operation is a scheduling point; "chan" = channel operations only
 	Witness   bool   `json:"witness"` // reachability twin: must be VIOLATED
 }
 
